@@ -25,8 +25,8 @@ func (set *Small) Set(x int32) bool {
 	x -= 64
 	w := uint(x)
 	bucket, bit := w/64, w%64
-	if uint(len(set.rest)) < bucket {
-		set.rest = append(set.rest, make([]uint64, int(bucket)-len(set.rest))...)
+	if uint(len(set.rest)) <= bucket {
+		set.rest = append(set.rest, make([]uint64, int(bucket)+1-len(set.rest))...)
 	}
 	wasSet := set.rest[bucket]&(1<<byte(bit)) != 0
 	set.rest[bucket] |= 1 << byte(bit)
